@@ -22,6 +22,14 @@ pub fn run(ctx: &Ctx, rep: &mut Report) {
     match ctx.leg.as_str() {
         "fm-child" => child::<crate::fm::FmPoint>(ctx, rep),
         "ris-child" => child::<curve25519_dalek::ristretto::RistrettoPoint>(ctx, rep),
+        "asan-selftest" => {
+            // a deliberate heap-buffer-overflow read, to confirm that the sanitizer build reports one (never part of a check)
+            let v = vec![1u8; 8];
+            let p = v.as_ptr();
+            let x = unsafe { std::ptr::read_volatile(p.add(9)) };
+            println!("selftest read {x}");
+            std::process::exit(0);
+        },
         "fm" | "ris" => parent(ctx, rep, &ctx.leg.clone()),
         "all" => {
             parent(ctx, rep, "fm");
